@@ -19,7 +19,7 @@ CFG = {
             "their own (1/8 of the placements) or anywhere on the screen (1/24), every Resize reports the pixel size of the real resizeImage result and the "
             "real cellPixelSize. Round 3: kitty draws into tight windows (0..5 x 0..3 cells; about 1 in 11 draws is refused as too large), 400 rescaled block images of "
             "kinds half/full (image.NRGBA source) and halfp/fullp (image.RGBA source), half of them translucent, up to 9x12 px into boxes down to 1x1, compared cell by cell with the scaler model; unscaled "
-            "premultiplied 1x2 images at every alpha level. Round 4: 1500 (thorough 15000) block images with real *image.Gray, *image.Paletted (color.NRGBA palette, half of them with translucent entries), *image.YCbCr (all four subsampling ratios, incl. values that clamp) and opaque *image.NRGBA64 "
+            "premultiplied 1x2 images at every alpha level. Round 4: 1500 (thorough 15000) block images with real *image.Gray, *image.Paletted (color.NRGBA palette, half of them with translucent entries), *image.YCbCr (all four subsampling ratios, incl. values that clamp) and opaque *image.NRGBA64, crops (SubImage) of a larger *image.NRGBA "
             "sources, 2/3 rescaled; every rendered frame reports ALL graphics commands in the order written (Q=: delete / place / complete PNG transmission with its pixel size / sixel). A case = one #case block; distinct by its op list; "
             "non-trivial = not a bare state snapshot",
     "technique": "Lean 4 proof over executable models of image.go / vaxis.go render / window.go Clear whose arm structure, guards, loops and statement order are regenerated from the source and INTERPRETED "
@@ -68,7 +68,8 @@ CFG = {
                   "no hypothesis: a written placement finds the data of the image's last successful Resize on the terminal (re-upload after a second Resize); half_pipeline_translucent / full_pipeline_translucent - ONE statement per renderer for the colours of every cell of every "
                   "stored NRGBA image, scaled or not, translucent included (decision by the source alphas against 50 AND colours standing for the source pixels under the cell within 255/a + 1 levels); generic_path_eq_fast_path (sources of other types under the stated hypothesis SameAs, "
                   "gray_same_as_nrgba proved); half_pipeline_any_source / full_pipeline_any_source / half_pipeline_any_opaque_source - the renderers on a source of ANY concrete type given by its At().RGBA() (JPEG -> *image.YCbCr, Gray, Paletted, 16-bit; scaled or not): the property's table / mean on the "
-                  "two seen source pixels under each cell, exact 8-bit colours for opaque sources; ycbcr_fast_path, generic_model_contains_fast_model; terminal_placements_inside - over all application histories every placement in the TERMINAL's table was drawn at the origin of a window containing all of it; F320 (HalfBlockImage drew what At() answers outside the bounds - black for image.Gray, palette[0] for image.Paletted - under the last row of an odd-height image) found and repaired, half_block_bottom_shape.",
+                  "two seen source pixels under each cell, exact 8-bit colours for opaque sources; ycbcr_fast_path, generic_model_contains_fast_model; terminal_placements_inside - over all application histories every placement in the TERMINAL's table was drawn at the origin of a window containing all of it; F320 (HalfBlockImage drew what At() answers outside the bounds - black for image.Gray, palette[0] for image.Paletted - under the last row of an odd-height image) found and repaired, half_block_bottom_shape; F420 (images whose bounds do not start at the origin - SubImage crops - were measured by Bounds().Max: cell size of the crop plus its offset, wrong aspect) found and repaired, "
+                  "Gen.resizeOriginNormalised, Witness.F420.",
     "level_note": "Validated by correspondence only: that the model is the code (VerifResizeDims / VerifToRGB / VerifAverageColor / "
                   "real block images / real kitty and sixel placements on a fake console incl. degenerate pixel reports, signed boxes, windows of their "
                   "own; 0 mismatches), the float hypothesis on the values seen. Oracles on the implementation independent of the model: fit / no-upscale / "
@@ -77,7 +78,7 @@ CFG = {
                   "in its own colour (F220); round 4: the order-sensitive terminal model run on the implementation's ORDERED command sequence - every a=p finds the data of the image's last Resize, after every frame the terminal's table = the (image, origin) pairs the application drew "
                   "(not judged from a frame with a key clash on: keyfun_needed); the hypothesis SameAs for *image.Gray / *image.Paletted sources and the transcribed YCbCr conversion / subsampling (1000 images per quick run through the real scaler and renderers). That the scaler model is x/image's code (hand-transcribed, tied by about 1 600 rescaled images per quick run). Modelled, not verified: translucent 16-bit source types (inside the any-source theorems, not exercised), which of the two terminal models a given terminal implements (the oracle runs the lenient one), "
                   "nothing about the content of the PNG / sixel data beyond the PNG's pixel size.",
-    "assumptions": ["image dimensions >= 1 (empty images are out of scope); box dimensions are any Int (round 2)",
+    "assumptions": ["image dimensions >= 1 (empty images are out of scope); box dimensions are any Int (round 2); the model's images start at the origin - since the F420 repair resizeImage translates any other image there first (Gen.resizeOriginNormalised)",
                     "col,row of a placement within 0..65535 (the kitty placement id packs col<<16|row)",
                     "fit_no_upscale_aspect_std: every dimension of image and box below 2^26 and the standard model of floating-point arithmetic (StdModel); the other fit theorems: Sound",
                     "the pipeline theorems about pixels: source of concrete type *image.NRGBA or *image.RGBA (the scaler's fast paths), or any type meeting SameAs (generic_path_eq_fast_path); *_any_source: any type, given by what At(x,y).RGBA() returns, Bounds().Min = (0,0); *_opaque: every stored alpha byte 0xff; *_translucent: *image.NRGBA",
